@@ -212,3 +212,61 @@ pub fn tableau_events(case: &Value, out: &mut Vec<Value>) {
         emit(&format!("{id}/manual"), "manual", evs, outcome, x, out);
     }
 }
+
+/// C14 through the LP front door: LinearModel -> standard form -> into_tableau
+/// (phase 1 recorded by hook H3) -> solve_step_by_step.  Also emits a `canon`
+/// event relating the returned canonical tableau to the standard form.
+pub fn lp_path_events(case: &Value, out: &mut Vec<Value>) {
+    let id = case["id"].as_str().unwrap_or("?");
+    let lm = crate::lp::lm_from_case(case);
+    let std = match catch_unwind(AssertUnwindSafe(|| lm.into_standard_form())) {
+        Ok(Ok(s)) => s,
+        _ => return,
+    };
+    // standard form rows as integers over a common denominator
+    let mut vals: Vec<f64> = vec![];
+    for c in std.verif_constraints() {
+        vals.extend(c.coefficients());
+        vals.push(c.rhs());
+    }
+    vals.extend(std.verif_objective());
+    let Some(sd) = common_den(&vals) else { return };
+    let int = |x: f64| (x * sd as f64).round() as i64;
+    let std_json = json!({
+        "A": std.verif_constraints().iter().map(|c| c.coefficients().iter().map(|x| int(*x)).collect::<Vec<_>>()).collect::<Vec<_>>(),
+        "b": std.verif_constraints().iter().map(|c| int(c.rhs())).collect::<Vec<_>>(),
+        "c": std.verif_objective().iter().map(|x| int(*x)).collect::<Vec<_>>(),
+        "D": sd,
+    });
+    verif_hooks::start();
+    let res = catch_unwind(AssertUnwindSafe(|| std.into_tableau()));
+    let phase1 = verif_hooks::take();
+    match res {
+        Err(_) => {
+            emit(&format!("{id}/phase1"), "phase1", phase1, "panic", None, out);
+        }
+        Ok(Err(e)) => {
+            let oc = match e {
+                rooc::CanonicalTransformError::Infesible(_) => "infeasible",
+                _ => "other",
+            };
+            emit(&format!("{id}/phase1"), "phase1", phase1, oc, None, out);
+        }
+        Ok(Ok(mut t)) => {
+            emit(&format!("{id}/phase1"), "phase1", phase1, "inner", None, out);
+            if let Some(mut b) = begin_from_snapshot(&format!("{id}/canon"), "canon", &snapshot_of(&t)) {
+                b["kind"] = json!("canon");
+                b["std"] = std_json;
+                out.push(b);
+            }
+            verif_hooks::start();
+            let r = catch_unwind(AssertUnwindSafe(|| t.solve_step_by_step(1000)));
+            let evs = verif_hooks::take();
+            match r {
+                Ok(Ok(opt)) => emit(&format!("{id}/lpsteps"), "steps", evs, "finished", Some(opt.result().variables_values().clone()), out),
+                Ok(Err(e)) => emit(&format!("{id}/lpsteps"), "steps", evs, outcome_of(&e), None, out),
+                Err(_) => emit(&format!("{id}/lpsteps"), "steps", evs, "panic", None, out),
+            }
+        }
+    }
+}
